@@ -300,16 +300,28 @@ def gen_file(rng, w, depth, outer_syms, earlier_syms):
       return stmts
     stmts.append(st)
   bindable = lambda o, a: o not in LISTS or ((a in LISTS[o][1]) != (LISTS[o][0] == 'deny'))   # noqa: E731
+  mm_path, mm_arg = rng.choice([(['shared'], 'a'), (['shared'], 'a'), (['Worker'], 'n'), (['Worker', 'run'], 'arg')])
   if rng.random() < 0.15 and 'mm' not in symtab and all(
-      bindable(name_to_id(m + ':shared'), 'a') for m in ('c19pkg.sub.m2', 'c19pkg.alt.m2')):
+      bindable(name_to_id(m + ':' + '.'.join(mm_path)), mm_arg) for m in ('c19pkg.sub.m2', 'c19pkg.alt.m2')):
     # one selector text used before and after an import that re-binds its first component to another module
     a, b = rng.sample([['c19pkg', 'sub', 'm2'], ['c19pkg', 'alt', 'm2']], 2)
     forms = lambda m: rng.choice([{'k': 'imp', 'module': m, 'from': False, 'alias': 'mm'},   # noqa: E731
                                   {'k': 'imp', 'module': m, 'from': True, 'alias': 'mm'}])
-    ta = name_to_id('.'.join(a) + ':shared')
-    tb = name_to_id('.'.join(b) + ':shared')
-    stmts += [forms(a), {'k': 'bind', 'sel': ['mm', 'shared'], 'arg': 'a', 'v': rng.randint(1, 49), '_target': ta},
-              forms(b), {'k': 'bind', 'sel': ['mm', 'shared'], 'arg': 'a', 'v': rng.randint(50, 99), '_target': tb}]
+    # ... for a function, a class, or a method of a class (the first use of the spelling in the second half)
+    path, arg = mm_path, mm_arg
+    ta = name_to_id('.'.join(a) + ':' + '.'.join(path))
+    tb = name_to_id('.'.join(b) + ':' + '.'.join(path))
+    extra = ({'_class': name_to_id('.'.join(a) + ':Worker'), '_method': 'run'}, {'_class': name_to_id('.'.join(b) + ':Worker'), '_method': 'run'}) \
+        if len(path) == 2 else ({}, {})
+    if rng.random() < 0.5:
+      # the name is bound to the *packages* of the two modules instead: `mm.m2.<path>` is then one spelling, with one
+      # dotted position in the package tree, for two objects
+      a, b, path = a[:-1], b[:-1], ['m2'] + path
+    stmts += [forms(a), dict({'k': 'bind', 'sel': ['mm'] + path, 'arg': arg, 'v': rng.randint(1, 49), '_target': ta}, **extra[0]),
+              forms(b), dict({'k': 'bind', 'sel': ['mm'] + path, 'arg': arg, 'v': rng.randint(50, 99), '_target': tb}, **extra[1])]
+    for t_, c_ in ((ta, extra[0].get('_class')), (tb, extra[1].get('_class'))):
+      if c_ is not None:
+        VIA.setdefault(t_, c_)
     symtab['mm'] = mods[tuple(b)]
   if rng.random() < 0.12:
     # a Gin builtin configured in the file: a shared object whose constructor is one of the file's functions (the
